@@ -84,7 +84,19 @@ impl BuildJob<'_> {
     ) -> Result<Pin<Box<dyn Future<Output = i32> + 'a>>, RedoError> {
         let before_t = try_stat(self.t.as_path()).map_err(RedoError::opaque_error)?;
         debug_assert!(self.lock.is_owned());
-        let (is_target, dirty) = (self.should_build_func)(&mut ptx, &self.t)?;
+        let (is_target, dirty) = match (self.should_build_func)(&mut ptx, &self.t) {
+            Ok(x) => x,
+            Err(e) => match immediate_exit_code(&e) {
+                // The callback asks for this one job to finish with the given
+                // status (e.g. the target already failed in this run); the
+                // other targets of the command are unaffected.
+                Some(code) => {
+                    log_err!("{}\n", e);
+                    return Ok(Box::pin(future::ready(code)));
+                }
+                None => return Err(e),
+            },
+        };
         match dirty {
             Dirtiness::Clean => {
                 // Target doesn't need to be built; skip the whole task.
@@ -888,6 +900,20 @@ where
     // the above loop.
     job_futures.fold((), |_, _| future::ready(())).await;
     result.replace(Ok(()))
+}
+
+/// Returns the exit code of the first [`RedoErrorKind::ImmediateExit`] in the error chain.
+fn immediate_exit_code(e: &RedoError) -> Option<i32> {
+    let mut next: Option<&(dyn std::error::Error + 'static)> = Some(e);
+    while let Some(e) = next {
+        next = e.source();
+        if let Some(&RedoErrorKind::ImmediateExit(code)) =
+            e.downcast_ref::<RedoError>().map(RedoError::kind)
+        {
+            return Some(code);
+        }
+    }
+    None
 }
 
 /// Polls a future and a stream, discarding any results from the stream.
